@@ -3,7 +3,8 @@
    writer would produce at that moment (DumpSeq!C19 on recorded values): the memory list holds
    exactly this dump's regions, each inside this image with the target's bytes; the exception
    stream's context is this image's blamed-thread context (or empty when that thread is not
-   listed); stacks are filtered by this dump's principal mapping only.                        *)
+   listed); stacks are filtered by this dump's principal mapping only; the caller's entry address and
+   mappings, which stay configured, are honoured by every dump.                        *)
 EXTENDS Integers, Sequences, FiniteSets, TLC, Json, IOUtils
 Rec == ndJsonDeserialize(IOEnv.TRACE)
 VARIABLES l, viol, drift, nchk, nlater
@@ -19,7 +20,8 @@ Dump == /\ E.ev = "c19"
                v3 == Note(E.outcome = "ok" => IF E.blamedListed THEN E.excCtxRva = E.blamedCtxRva /\ E.excCtxSize = CtxSize
                                               ELSE E.excCtxSize = 0, v2, "C19-crashing-context-of-an-earlier-dump")
                v4 == Note(E.outcome = "ok" /\ E.skip /\ ~E.principalResolves => E.nStacks = 0, v3, "C19-principal-mapping-of-an-earlier-dump")
-           IN viol' = v4
+               v5 == Note(E.outcome = "ok" => E.entryOk /\ E.userOk, v4, "C19-caller-supplied-option-not-applied-in-a-later-dump")
+           IN viol' = v5
         /\ drift' = drift /\ nchk' = nchk + 1 /\ nlater' = nlater + (IF E.dumpNo > 1 THEN 1 ELSE 0)
 Next == l <= Len(Rec) /\ Dump /\ l' = l + 1
 Spec == Init /\ [][Next]_vars
